@@ -91,6 +91,11 @@ var npmRanges = []string{"^1.0.0", "~1.1.0", ">=1.0.0 <2.0.0", "1.x", "*", "1.0.
 
 type NPMOpts struct {
 	Aliases bool
+	// RealNameAliases lets an alias be the name of another real package (the
+	// common use of aliases: "xavier": "npm:yvonne@^2"); repeated along a cycle
+	// this can trigger the recorded non-termination, so the caller needs a
+	// deadline on Resolve.
+	RealNameAliases bool
 	// Bundles gives some versions a bundled copy of one of their dependencies
 	// (a derived package "pkg>version>dep" with DerivedFrom, required by the
 	// bundling version next to a bundle-scoped requirement on the dependency).
@@ -193,19 +198,29 @@ func NPMUniverse(o NPMOpts) *rapid.Generator[Universe] {
 							// through plain, backward requirements) is what triggers the
 							// non-termination.
 							r.Type = fmt.Sprintf("KnownAs al%dv%d%s", i, len(p.Versions), rapid.SampledFrom([]string{"", "b"}).Draw(t, "alias"))
+							if o.RealNameAliases && rapid.IntRange(0, 2).Draw(t, "realalias") == 0 {
+								if k := rapid.IntRange(0, n-1).Draw(t, "realaliasname"); k != ti && k != i {
+									r.Type = "KnownAs " + names[k]
+								}
+							}
 						}
 					}
 					// package.json sections are maps keyed by the dependency name
 					// (the alias if there is one): a name occurs once per section,
 					// and an alias once per version.
 					key := r.Name + "|" + r.Type
+					depName := r.Name
 					if strings.HasPrefix(r.Type, "KnownAs ") {
-						key = "alias|" + strings.TrimPrefix(r.Type, "KnownAs ")
+						depName = strings.TrimPrefix(r.Type, "KnownAs ")
+						key = "alias|" + depName
 					}
-					if used[key] {
+					// an alias may carry a real package's name: then that name cannot
+					// also be a plain dependency of the same version (one key, one entry)
+					if used[key] || (o.RealNameAliases && used["depname|"+depName]) {
 						continue
 					}
 					used[key] = true
+					used["depname|"+depName] = true
 					uv.Reqs = append(uv.Reqs, r)
 				}
 				p.Versions = append(p.Versions, uv)
